@@ -95,7 +95,7 @@ func runC15(c *core.Ctx) {
 	c.Exhaustive(fmt.Sprintf("all %d boundary (published, expires) combinations", len(pubs)*len(offs)))
 
 	// Lease / Lease2 time conversions and the 32-bit constructor's range check
-	secs := []int64{-1, -1 << 31, 0, 1, 1<<31 - 1, 1 << 31, 1<<32 - 1, 1 << 32, 1<<32 + 1, 1 << 33, 1 << 40, 1<<62 / 1000}
+	secs := []int64{-1, -1 << 31, 0, 1, 1<<31 - 1, 1 << 31, 1<<32 - 1, 1 << 32, 1<<32 + 1, 1 << 33, 1 << 40, 1 << 62 / 1000}
 	c.Job("lease2-ctor", len(secs)+c.N(4000, 80000), func(i int, r *core.Rand) {
 		var s int64
 		if i < len(secs) {
